@@ -61,6 +61,17 @@ def Re.m {α : Type} : Re → Bytes → (Bytes → Option α) → Option α
     | some x => some x
     | none => k s
 
+/-- Does the expression contain a class that can match a byte ≥ 0x80 (`.` or a negated class)?
+Only then does Go's rune-wise matching differ from the model's byte-wise matching. -/
+def Re.wide : Re → Bool
+  | .eps => false
+  | .cls c => c.neg
+  | .seq a b => a.wide || b.wide
+  | .alt a b => a.wide || b.wide
+  | .star c => c.neg
+  | .plus c => c.neg
+  | .opt r => r.wide
+
 /-- Anchored match of `(rule)` followed by the literal `suffix` at the start of `path`:
 `some (captured, rest)`.  This is `FindStringSubmatchIndex` with `loc[0] = 0`. -/
 def rxMatch (re : Re) (suffix path : Bytes) : Option (Bytes × Bytes) :=
